@@ -60,6 +60,16 @@ TRUSTED = [
     "generated genShouldRerun unless disabled; self.is_finished(worker, 1) and self.scan_states() are the inputs "
     "`finished` / `scanRun`; `a or <action>` is printed as statements so that the action runs only when Python runs "
     "it); defaultRunDecision_matches_source proves the hand written defaultRunDecision equal to it for all inputs",
+    "harness/pygen_pxrunner.py regenerates I2N/Extracted/GenRunner.lean from TestRunner.run_test_node (cut at its two "
+    "awaits into straight-line segments) and TestRunner.all_results_ok.  Trusted: the cut (segments between the awaits; "
+    "the final `return <frame>` of the locals that live across a suspension; the generator of next(...) read as a list "
+    "whose first element next returns), the loop skeletons genPoll / genPolls / genRunTestNode / genAllOkLoop written in "
+    "Lean and matched structurally against the source, the atom table (node.id_test.uid = the current node.prefix; only "
+    "the length of node.shared_results is read; result dictionaries as Result / JobRes; float(time_elapsed) as a natural "
+    "number; STATUSES_MAPPING[s] as the extracted mapping with KeyError), the pinned statements (retry prefix f-string, "
+    "placeholder dictionary and its append, max(..., default=duration), the PASS->WARN rule with 1.25 written as 5/4 and "
+    "the in-place change of the job record as warnFirst, the copy of the job record into node.results, the restore of "
+    "the prefix, two log statements), and the translator addition any/all over a raising Boolean atom = List.anyM/allM",
 ]
 
 # the property's eight statuses and the acceptable ones -- deliberately NOT taken from /repo or the model
@@ -263,8 +273,19 @@ def _extract_gen(ctx):
         ctx.notes.append("I2N/Extracted/GenRules.lean changed: the source of TestNode.should_rerun / "
                          "shared_filtered_results differs from the one the committed file was generated from "
                          "(shouldRerun_matches_source / filteredResults_matches_source are re-checked)")
+    import pygen_pxrunner
+    if pygen_pxrunner.extract_runner(ctx):
+        ctx.notes.append("I2N/Extracted/GenRunner.lean changed: the source of TestRunner.run_test_node / all_results_ok "
+                         "differs from the one the committed file was generated from (runBefore_/pollFound_/poll_/"
+                         "runAfter_/allResultsOk_matches_source are re-checked)")
     ctx.extra["regenerated"] = ("lean/I2N/Extracted/GenRules.lean (TestNode.should_rerun, shared_filtered_results, "
-                                "default_run_decision via harness/pygen.py)")
+                                "default_run_decision via harness/pygen.py); lean/I2N/Extracted/GenRunner.lean "
+                                "(TestRunner.run_test_node cut at its two awaits into the segments genRunBefore, genLookup, "
+                                "genPollFound, genPollMiss, genRunAfter, and the any(...) of TestRunner.all_results_ok, via "
+                                "harness/pygen_pxrunner.py); obligations: allResultsOk_matches_source, "
+                                "runBefore_matches_source, pollFound_matches_source, poll_matches_source, "
+                                "pollMiss_matches_source, statusTimeout_matches_source, runAfter_matches_source, "
+                                "beginExec_matches_source, placeholder_stays_when_unreported")
 
 
 _EXTRACTED_VALUES = None
